@@ -405,6 +405,20 @@ func genLRUCase(t *rapid.T, minLen int) LRUCase {
 			c.Ops = append(c.Ops, LRUOp{Kind: "S", Key: fmt.Sprintf("k%d", i), Val: 100000 + i})
 		}
 	}
+	if c.Cap >= 2 && c.Cap <= 64 && rapid.IntRange(0, 7).Draw(t, "coldEntry") == 0 {
+		// an entry that is stored once and never touched again while other keys come and go by Delete alone (the cache
+		// stays below its capacity, nothing is ever evicted): many times the number of removals any internal
+		// clean-up period can have; the final sweep of every key looks at the cold one
+		cold := fmt.Sprintf("k%d", nkeys+5)
+		c.Ops = append(c.Ops, LRUOp{Kind: "S", Key: cold, Val: 777001})
+		rounds := rapid.IntRange(2*c.Cap+2, 12*c.Cap+12).Draw(t, "coldRounds")
+		hot := rapid.IntRange(1, c.Cap-1).Draw(t, "hotKeys")
+		for r := 0; r < rounds; r++ {
+			hk := fmt.Sprintf("k%d", r%hot)
+			c.Ops = append(c.Ops, LRUOp{Kind: "S", Key: hk, Val: 778000 + r}, LRUOp{Kind: "D", Key: hk})
+		}
+		c.Ops = append(c.Ops, LRUOp{Kind: "N"}, LRUOp{Kind: "L", Key: cold})
+	}
 	for i := 0; i < n; i++ {
 		k := fmt.Sprintf("k%d", rapid.IntRange(0, nkeys-1).Draw(t, "key"))
 		if rapid.IntRange(0, 39).Draw(t, "burst") == 0 {
